@@ -39,6 +39,10 @@ pub fn budget(prop: &str, thorough: bool) -> Budget {
         "C07" => (2500, 80_000),
         "C15" => (3000, 100_000),
         "C16" => (3000, 100_000),
+        "C04" => (2500, 80_000),
+        "C08" => (1500, 30_000),
+        "C11" => (2500, 80_000),
+        "C14" => (2500, 80_000),
         _ => (1000, 20_000),
     };
     Budget { runs: if thorough { t } else { q } }
@@ -85,6 +89,39 @@ pub fn profile(prop: &str, rng: &mut Rng) -> Profile {
             p.small_chunks_pct = *rng.pick(&[40, 85]);
             p.eager_worker_pct = 50;
         }
+        "C04" => {
+            p.nops = (10, 70);
+            p.flush_heavy = true;
+            p.restarts = rng.chance(30);
+            p.purge_heavy = rng.chance(30);
+            p.cache = CacheMode::Any;
+            p.faults = if rng.chance(60) { FaultMode::WriteSync } else { FaultMode::None };
+            p.eager_worker_pct = 25;
+        }
+        "C08" => {
+            p.nops = (10, 70);
+            p.purge_heavy = true;
+            p.flush_heavy = rng.chance(70);
+            p.restarts = rng.chance(40);
+            p.cache = CacheMode::Any;
+            p.faults = if rng.chance(40) { FaultMode::WriteSync } else { FaultMode::None };
+            p.eager_worker_pct = 25;
+        }
+        "C14" => {
+            p.nops = (8, 50);
+            p.race_restart = true;
+            p.purge_heavy = true;
+            p.flush_heavy = true;
+            p.cache = CacheMode::Any;
+            p.eager_worker_pct = 10;
+        }
+        "C11" => {
+            p.nops = (10, 80);
+            p.restarts = true;
+            p.cache = CacheMode::Any;
+            p.flush_heavy = rng.chance(50);
+            p.purge_heavy = rng.chance(40);
+        }
         "C06" => {
             p.nops = (10, 80);
             p.rejected = true;
@@ -127,6 +164,15 @@ pub fn make_spec(prop: &str, run_seed: u64) -> Spec {
 pub struct Analysis {
     pub witnesses: Vec<(Violation, Post)>,
     pub crash: CrashStats,
+    pub extra: std::collections::BTreeMap<String, u64>,
+}
+
+impl Analysis {
+    fn add(&mut self, k: &str, v: u64) {
+        if v > 0 {
+            *self.extra.entry(k.to_string()).or_default() += v;
+        }
+    }
 }
 
 pub fn cfg_at(out: &RunOut, spec: &Spec, k: usize) -> Cfg {
@@ -162,6 +208,72 @@ pub fn analyse(prop: &str, spec: &Spec, out: &RunOut, thorough: bool, only: Opti
             for cv in vs {
                 an.witnesses.push((cv.v, Post::Crash(cv.crash)));
             }
+        }
+        "C04" => {
+            if only.map(|o| *o != Post::None).unwrap_or(false) {
+                return;
+            }
+            let mut st = crate::analyse::AckStats { acks_ok_checked: 0, acks_err: 0, dropped: 0, batched_acks: 0, acks_spanning_rotation: 0, orphans_skipped: 0 };
+            for v in crate::analyse::check_acks(spec, out, &mut st) {
+                an.witnesses.push((v, Post::None));
+            }
+            an.add("acks_ok_checked", st.acks_ok_checked);
+            an.add("acks_err_seen", st.acks_err);
+            an.add("callbacks_dropped_unsent", st.dropped);
+            an.add("acks_batched_with_previous", st.batched_acks);
+            an.add("acks_spanning_rotation", st.acks_spanning_rotation);
+            an.add("orphan_files_skipped_at_ack", st.orphans_skipped);
+        }
+        "C08" => {
+            let only_c = match only {
+                Some(Post::Crash(c)) => Some(c),
+                _ => None,
+            };
+            if only_c.is_none() {
+                let mut st = crate::analyse::UnlinkStats::default();
+                for v in crate::analyse::check_unlinks(spec, out, &mut st) {
+                    an.witnesses.push((v, Post::None));
+                }
+                an.add("unlinks_checked", st.unlinks);
+                an.add("unlinks_fully_judged", st.unlinks_fully_judged);
+                an.add("purge_record_in_deleted_chunk", st.purge_record_in_deleted_chunk);
+                an.add("liveness_points", st.liveness_points);
+                an.add("cleanup_unlinks_of_failed_creations", st.cleanup_unlinks);
+                an.add("expected_gone_chunks_checked", st.expected_gone_checked);
+            }
+            // crash images before / between / after the unlinks must recover to a model prefix
+            if only.map(|o| *o != Post::None).unwrap_or(true) && out.caller_errors == 0 && out.ep.trace.iter().any(|e| matches!(e, crate::core::Ev::Fs(f) if f.op == crate::core::FsOp::Unlink && f.file != crate::shadow::LOCK)) {
+                let cc = CrashCheckCfg { thorough, budget_points: 10, check_prefix: true, check_recoverable: false, nested: false, continuation: false, max_images: if thorough { 1500 } else { 60 } };
+                let vs = crash::check_run(prop, out, &|k| cfg_at(out, spec, k), &cc, only_c, &mut rng, img_dir, &mut an.crash);
+                for cv in vs {
+                    an.witnesses.push((cv.v, Post::Crash(cv.crash)));
+                }
+            }
+        }
+        "C14" => {
+            if only.map(|o| *o != Post::None).unwrap_or(false) {
+                return;
+            }
+            let mut st = crate::analyse::QuiesceStats::default();
+            for v in crate::analyse::check_quiesce(out, &mut st) {
+                an.witnesses.push((v, Post::None));
+            }
+            an.add("drops_checked", st.drops_checked);
+            an.add("old_worker_fs_steps_after_drop", st.old_worker_steps_after_drop);
+        }
+        "C11" => {
+            if only.map(|o| *o != Post::None).unwrap_or(false) {
+                return;
+            }
+            let mut st = crate::analyse::JournalStats::default();
+            for v in crate::analyse::check_journal(spec, out, &mut st) {
+                an.witnesses.push((v, Post::None));
+            }
+            an.add("quiescent_points_parsed", st.points);
+            an.add("chunk_files_parsed", st.files_parsed);
+            an.add("returned_segments_checked", st.segments_checked);
+            an.add("head_snapshots_checked", st.heads_checked);
+            an.add("limit_rules_checked", st.limit_rules_checked);
         }
         _ => {}
     }
